@@ -28,6 +28,7 @@ type Spec struct {
 	Block   int              `json:"block"`
 	Kind    string           `json:"kind"` // singles | doubles | inflight | handmade
 	WrongExt string          `json:"wrong_ext,omitempty"`
+	Curated  int             `json:"curated,omitempty"` // PDF: 1 or 2 = one of the hand-picked layouts, 0 = drawn from the seed
 }
 
 type Prop struct {
@@ -70,33 +71,30 @@ func smallPDFSpec(r *sim.Rand) pdfw.DocSpec {
 	return sp
 }
 
-// curated maps the document seeds of the first two enumerated PDF documents of a
-// batch to hand-picked layouts, so that even the quick tier covers the features
-// whose fields matter most (set by Generate).
-var curated = map[uint64]int{}
-
+// The first two enumerated PDF documents of a batch use hand-picked layouts, so
+// that even the quick tier covers the features whose fields matter most.
 func curatedPDFSpec(k int, seed uint64) pdfw.DocSpec {
 	if k == 0 {
 		// cross-reference stream, object streams (incl. the length object), PNG predictor,
 		// indirect /Length, Type0 font with ToUnicode, form XObject, one incremental update
 		return pdfw.DocSpec{Seed: seed, Pages: 2, Lines: 2, FontKinds: []int{pdfw.FontType0Identity, pdfw.FontStdWinAnsi}, XRef: []int{1, 1},
 			ObjStm: 2, ObjStmN: 1, ObjStmZ: true, XRefZ: 2, LenMode: 1, LenInStm: true, Filter: 1, Predictor: 12, TreeDepth: 2, InheritAt: 1,
-			ResIndirect: true, FontPartsIndirect: true, FormXObj: true, TextOps: 2, Revisions: 1, RevOps: []int{0}}
+			ResIndirect: true, FontPartsIndirect: true, FormXObj: true, TextOps: 2, Revisions: 1, RevOps: []int{0}, ForceCMapForm: 2}
 	}
 	// classic table, TIFF predictor, filter chain on other streams via split content, deep tree, kids by reference
 	return pdfw.DocSpec{Seed: seed, Pages: 3, Lines: 2, FontKinds: []int{pdfw.FontSimpleToUni, pdfw.FontTrueTypeWin}, XRef: []int{0, 0},
 		Filter: 1, Predictor: 2, Split: 2, ContentsArr: true, ContentsRef: true, TreeDepth: 3, InheritAt: 2, KidsRef: true, Rotate: 90,
-		LenMode: 2, TextOps: 1, Revisions: 1, RevOps: []int{2}, DictBreak: true}
+		LenMode: 2, TextOps: 1, Revisions: 1, RevOps: []int{2}, DictBreak: true, ForceCMapForm: 3}
 }
 
-func makeDoc(format string, seed uint64) *document {
+func makeDoc(format string, seed uint64, curated int) *document {
 	r := sim.NewRand(sim.Mix(seed ^ sim.HashString(format)))
 	d := &document{format: format, ext: "." + format}
 	switch format {
 	case "pdf":
 		sp := smallPDFSpec(r)
-		if k, ok := curated[seed]; ok {
-			sp = curatedPDFSpec(k, sp.Seed)
+		if curated > 0 {
+			sp = curatedPDFSpec(curated-1, sp.Seed)
 		}
 		d.pdf = &sp
 		d.data = pdfw.Generate(sp).Built.Bytes
@@ -211,12 +209,12 @@ func (p *Prop) Generate(base uint64, index int, env *sim.Env) *sim.Case {
 	docIdx := j % D
 	block := j / D
 	docSeed := sim.RunSeed(base, "C02-doc-"+format, docIdx)
-	if format == "pdf" && docIdx < 2 {
-		curated[docSeed] = docIdx
-	}
 	c := &sim.Case{Prop: "C02", Seed: seed, Index: index}
 	sp := Spec{Format: format, DocSeed: docSeed, Block: block}
-	d := makeDoc(format, docSeed)
+	if format == "pdf" && docIdx < 2 {
+		sp.Curated = docIdx + 1
+	}
+	d := makeDoc(format, docSeed, sp.Curated)
 	all := enumerate(d)
 	nBlocks := (len(all) + blockSize - 1) / blockSize
 	switch {
@@ -241,7 +239,8 @@ func (p *Prop) Generate(base uint64, index int, env *sim.Env) *sim.Case {
 		c.Mode = "doubles"
 		// a fresh document for doubles, so that they are not tied to the enumerated one
 		sp.DocSeed = sim.RunSeed(base, "C02-dbl-"+format, int(r.Intn(64)))
-		d = makeDoc(format, sp.DocSeed)
+		sp.Curated = 0
+		d = makeDoc(format, sp.DocSeed, 0)
 		all = enumerate(d)
 		for k := 0; k < 24; k++ {
 			a := sim.Pick(r, all)
@@ -272,7 +271,7 @@ func (p *Prop) Execute(c *sim.Case, env *sim.Env) *sim.Result {
 	var sp Spec
 	c.GetSpec(&sp)
 	res := &sim.Result{Status: "ok"}
-	d := makeDoc(sp.Format, sp.DocSeed)
+	d := makeDoc(sp.Format, sp.DocSeed, sp.Curated)
 	if img, ok := c.Images["pristine"]; ok {
 		d.data = img
 	}
@@ -474,7 +473,7 @@ func (p *Prop) Shrink(c *sim.Case) []*sim.Case {
 func (p *Prop) Finalise(c *sim.Case, env *sim.Env) {
 	var sp Spec
 	c.GetSpec(&sp)
-	d := makeDoc(sp.Format, sp.DocSeed)
+	d := makeDoc(sp.Format, sp.DocSeed, sp.Curated)
 	if c.Images == nil {
 		c.Images = map[string][]byte{}
 	}
